@@ -478,6 +478,7 @@ def r_dedup_key(c):
     m = c.model
     fd = m.func("pytato.transform.DataWrapperDeduplicator._get_data_dedup_cache_key")
     where = m.loc(m.module_of(fd), fd)
+    fd = m.normal(fd)       # key components held in locals are propagated
     tuples = [r.value for r in ast.walk(fd) if isinstance(r, ast.Return)
               and isinstance(r.value, ast.Tuple)]
     if len(tuples) < 2:
